@@ -3037,7 +3037,7 @@ func (vm *Thread) opNegateInt() {
 		result = operand.NegateVal()
 	} else {
 		operand := operand.AsReference().(*value.BigInt)
-		result = value.Ref(operand.Negate())
+		result = operand.Negate().ToNormalisedValue()
 	}
 	vm.replace(result)
 }
